@@ -133,8 +133,10 @@ package py
 //@ spec nextFailed() bool = lasterr[0] != nil && !excmatch(StopIteration, lasterr[0])
 
 //@ func Iterate(obj, fn) (err)
+//@   traced 48
 //@   requires nn: obj != nil
 //@   modifies *
+//@   ensures tupleok: is(obj, Tuple) ==> err == nil
 //@   ensures fail: nextFailed() ==> err == lasterr[0]
 //@   ensures stop: nextStopped() ==> err == nil
 
